@@ -3,7 +3,7 @@
 P="$1"; ID="$2"; TIER="${3:-quick}"
 P=$(realpath "$P"); if [ -d "$P" ]; then if [ -f "$P/patch.head.diff" ]; then P="$P/patch.head.diff"; else P="$P/patch.diff"; fi; fi
 cd /repo && git diff --quiet || { echo "/repo dirty"; exit 3; }
-git -C /repo apply "$P" 2>/dev/null || { echo "patch does not apply to HEAD: $P (port it to patch.head.diff)"; git -C /repo checkout -q -- .; exit 3; }
+git -C /repo apply "$P" 2>/dev/null || { (cd /repo && patch -p1 --fuzz=3 --no-backup-if-mismatch -s < "$P" >/dev/null 2>&1) && [ -z "$(find /repo -name '*.rej' | head -1)" ] && echo "(applied with fuzz)"; } || { echo "patch does not apply to HEAD: $P (port it to patch.head.diff)"; find /repo -name '*.rej' -delete; find /repo -name '*.orig' -delete; git -C /repo checkout -q -- .; exit 3; }
 cd /verif && ./check "$ID" --tier "$TIER" > /tmp/seedtest.$$.out 2>&1; RC=$?
 grep -E "^VIOLATION|^\[C|MACHINERY|^  key=" /tmp/seedtest.$$.out | cut -c1-260 | head -12; rm -f /tmp/seedtest.$$.out
 git -C /repo checkout -q -- . ; git -C /repo status --short | head -3
